@@ -104,6 +104,35 @@ def run_config(cfg, res):
         for j in range(i + 1, n):
           if not one([stream[:i], stream[i:j], stream[j:]], 'cut2@%d,%d' % (i, j)):
             return
+    # two connections fed alternately with differently cut copies of the stream: per-connection state must not mix
+    if n > 4:
+      from twisted.internet.testing import StringTransport
+      for k in range(3):
+        pa, pb = cls(), cls()
+        pa.makeConnection(StringTransport())
+        pb.makeConnection(StringTransport())
+        ca = proto.cut(stream, sorted(set(r.randrange(1, n) for _ in range(4))))
+        cb = proto.cut(stream, sorted(set(r.randrange(1, n) for _ in range(4))))
+        rec.take()
+        gota, gotb = [], []
+        exc = None
+        try:
+          for i in range(max(len(ca), len(cb))):
+            if i < len(ca):
+              pa.dataReceived(ca[i])
+              gota.extend(rec.take())
+            if i < len(cb):
+              pb.dataReceived(cb[i])
+              gotb.extend(rec.take())
+        except Exception as e:
+          exc = e
+        proto.close(pa)
+        proto.close(pb)
+        res.count('interleaved_connection_pairs')
+        why = ('exception %r' % exc) if exc else (proto.same_points(gota, exp) or proto.same_points(gotb, exp))
+        if why:
+          report('mismatch/interleaved-connections', why, stream, exp, 'two connections %r / %r' % ([len(x) for x in ca], [len(x) for x in cb]), gota)
+          return
     for k in range(30 if cfg['tier'] == 'quick' else 50):
       m = r.randint(2, min(12, max(2, n - 1)))
       pos = sorted(set(r.randrange(1, n) for _ in range(m))) if n > 1 else []
